@@ -7,6 +7,7 @@ from contracts.C05_component_restore import ColumnValidateRestoresSchema, RunSch
 from contracts.C18_config import ConfigContext
 from contracts.C20_subsample import PolarsSubsample
 from contracts.C11_drop_invalid_rows import PandasDropInvalidRows, PolarsDropInvalidRows
+from contracts.C03_polars_container_validate import PolarsContainerValidate
 
 CONTRACTS = [ContainerValidate, SeriesSchemaValidate, ArrayValidate, IndexValidate, ColumnValidateRestoresSchema, RunSchemaComponentChecks,
-             ConfigContext, PolarsSubsample, PandasDropInvalidRows, PolarsDropInvalidRows] + list(POLARS_API)
+             ConfigContext, PolarsSubsample, PandasDropInvalidRows, PolarsDropInvalidRows, PolarsContainerValidate] + list(POLARS_API)
